@@ -275,7 +275,9 @@ def resolve_crashes(scn, lines, frame, int_active):
         else:
             at = 1 + c['k'] % (n - 1)
             cname = 'uniform'
-        out.append({'at': at, 'fmt': c['fmt'], 'class': cname})
+        # was the CPU halted (HALT being re-executed) when the snapshot was taken?
+        halted = lines[at - 1][2] == 'HALT' and at < len(lines) and lines[at][2] == 'HALT' and lines[at][1] == lines[at - 1][1]
+        out.append({'at': at, 'fmt': c['fmt'], 'class': cname, 'halted': bool(halted)})
     # distinct, sorted
     seen = {}
     for c in sorted(out, key=lambda c: c['at']):
@@ -305,7 +307,7 @@ def _run(scn, res, wd):
     h = hashlib.sha256()
     try:
         # pass 0: instrumented run (classifies the instruction boundaries)
-        if 'crashes' not in scn or scn.get('mode') == 'stop':
+        if 'crashes' not in scn or scn.get('mode') == 'stop' or any('halted' not in c for c in scn['crashes']):
             out, _ = run_trace(['-v', '-D', '-I', TRACE_LINE, '-m', str(n + 1)] + eng + extra + [start])
             lines = parse_trace(out)
             if len(lines) < 3:
@@ -316,6 +318,10 @@ def _run(scn, res, wd):
                     n = scn['N'] = len(lines) - 1
                 scn['crashes'] = resolve_crashes(scn, lines, frame, int_active)
                 scn.pop('crash_spec', None)
+            for c in scn['crashes']:
+                if 'halted' not in c:
+                    at = c['at']
+                    c['halted'] = bool(0 < at < len(lines) and lines[at - 1][2] == 'HALT' and lines[at][2] == 'HALT' and lines[at][1] == lines[at - 1][1])
         crashes = [c for c in scn['crashes'] if 0 < c['at'] < n]
         if not crashes:
             res['discard'] = 'no crash point inside the run'
@@ -365,6 +371,9 @@ def _run(scn, res, wd):
                 cur_extra = []
                 if i in memptr0_after:
                     cur_extra = ['--reg', 'MEMPTR=0']
+                if scn.get('neutralise_halted') and not last and crashes[i].get('halted'):
+                    # counterfactual for the known finding 'halted state is not saved': tell the resumed leg
+                    cur_extra = cur_extra + ['--state', 'halted=1']
                 done = p
             return extract(final, frame)
 
@@ -469,3 +478,11 @@ def describe():
                    'crash_after_frame_cross', 'crash_in_int_window', 'crash_after_out'],
         'design_ref': 'DESIGN.md section 5, C10',
     }
+
+def _neutralise_halted(scn):
+    if not scn.get('cmio') or not any(c.get('halted') for c in scn.get('crashes') or []):
+        return None
+    scn['neutralise_halted'] = True
+    return scn
+
+neutralisers = {'halted-state-not-saved-cmio': _neutralise_halted}
